@@ -36,6 +36,46 @@ def registrations(facts, b):
     return v, regs
 
 
+def discover(facts):
+    """What PasetoParser::default() registers, by interpreting it with PasetoParser::validate_claim summarised:
+    (list of per-path registrations [(key, validator value)], why-undecided or None).  The validator may be a closure or a named function."""
+    b = default_body(facts)
+    if b is None:
+        return None, "impl Default for PasetoParser not found"
+
+    def stub(I, st, args):
+        claim = MD.deref(I, st, args[1]) if len(args) > 1 else None
+        k = None
+        if isinstance(claim, A.Struct):
+            inner = MD.deref(I, st, claim.fields.get("0"))
+            if isinstance(inner, A.Struct) and "0" in inner.fields:
+                kv = MD.deref(I, st, inner.fields["0"])
+                k = kv.s if isinstance(kv, A.StrV) else MD.describe(I, st, kv)
+        f = MD.deref(I, st, args[2]) if len(args) > 2 else None
+        st.events.append(("register", k, f))
+        return args[0]
+    I = A.Interp(facts, MD.MODELS)
+    I.fn_stubs = [(re.compile(r"PasetoParser::<.*>::validate_claim$"), stub)]
+    st = A.State()
+    outs = I.run(b, [], st)
+    if not outs or any(o.kind != "return" or o.state.unmodelled or any("undecided" in n for n in o.state.notes) for o in outs):
+        o = [o for o in outs if o.kind != "return" or o.state.unmodelled or any("undecided" in n for n in o.state.notes)]
+        return None, "default() not decided: %s" % ((o[0].kind, o[0].state.unmodelled[:2], o[0].state.notes[:1]) if o else "no outcome")
+    return [[(e[1], e[2]) for e in o.state.events if e[0] == "register"] for o in outs], None
+
+
+def validator_bodies(facts):
+    """{key: (body, is_closure)} of the default validators (semantic discovery, else the closures of default())"""
+    per, why = discover(facts)
+    out = {}
+    if per:
+        for regs in per:
+            for k, f in regs:
+                if isinstance(f, A.FnV) and f.defn in facts.bodies:
+                    out[k] = (facts.bodies[f.defn], f.kind == "closure")
+    return out
+
+
 def run(prop, key, direction):
     """direction: 'exp' (reject instants <= now) or 'nbf' (reject instants >= now)"""
     res = Result(prop, "proof")
@@ -49,15 +89,39 @@ def run(prop, key, direction):
     if b is None:
         res.violate(prop + ".R1", "PasetoParser::default", "anchor missing", "impl Default for PasetoParser not found")
         return res
+    per, why_und = discover(facts)
+    sem_fn = None
+    if per is not None:
+        # semantic: on every path of default() exactly one registration under the key, with an interpretable validator
+        v = M.view(facts, b)
+        good = all(len([1 for k_, f_ in regs_ if k_ == key]) == 1 for regs_ in per) and bool(per)
+        fns = [f_ for regs_ in per for k_, f_ in regs_ if k_ == key]
+        good = good and all(isinstance(f_, A.FnV) and f_.defn in facts.bodies for f_ in fns) and len(set(f_.defn for f_ in fns)) == 1
+        res.oblige(good)
+        if not good:
+            res.violate(prop + ".R1", b["id"], "no %s validator registered" % key, "PasetoParser::default must call validate_claim with the %s claim and a validator on every path; registrations per path: %s" % (key, [[k_ for k_, _f in regs_] for regs_ in per]),
+                        file=v.file(), line=b["line"])
+            return res
+        sem_fn = fns[0]
+        res.inst(prop + ".R1", "PasetoParser::default registers a validator for %r on every path (%s %s)" % (key, sem_fn.kind, M.short(sem_fn.defn)))
+        res.inst(prop + ".R1", "the registrations are made on the parser that default() returns (interpreted whole)")
+        mine = [{"closure": sem_fn.defn, "is_closure": sem_fn.kind == "closure"}]
+        ok = True
+    else:
+        res.notes.append("default() not decided semantically (%s): structural registration rules consulted" % why_und)
     v, regs = registrations(facts, b)
-    mine = [r for r in regs if r["key"] == key]
+    if sem_fn is None:
+        mine = [r for r in regs if r["key"] == key]
     # R1 registration on every path, on the parser that is returned
-    ok = len(mine) == 1 and mine[0]["closure"] is not None
-    rets = v.cfg.return_blocks()
-    if ok:
-        ok = all(v.cfg.dominates(mine[0]["block"], rb) for rb in rets)
-    res.oblige(ok)
-    if ok:
+    if sem_fn is None:
+        ok = len(mine) == 1 and mine[0]["closure"] is not None
+        rets = v.cfg.return_blocks()
+        if ok:
+            ok = all(v.cfg.dominates(mine[0]["block"], rb) for rb in rets)
+        res.oblige(ok)
+    if sem_fn is not None:
+        pass
+    elif ok:
         res.inst(prop + ".R1", "PasetoParser::default registers a validator for %r on every path (closure %s)" % (key, M.short(mine[0]["closure"])))
     else:
         res.violate(prop + ".R1", b["id"], "no %s validator registered" % key, "PasetoParser::default must call validate_claim with the %s claim and a validator on every path; registrations found: %s" % (key, [(r["key"], r["ln"]) for r in regs]),
@@ -66,7 +130,7 @@ def run(prop, key, direction):
     # the returned parser is the one the validators were registered on
     N = M.Normalizer(facts, keep=[r"::validate_claim$", r"PasetoParser::<.*>::new$"])
     rt = N.norm(v.return_term())
-    okr = any(x.op == "call" and re.search(r"validate_claim(::<.*>)?$", x.name) for x in rt.walk())
+    okr = sem_fn is not None or any(x.op == "call" and re.search(r"validate_claim(::<.*>)?$", x.name) for x in rt.walk())
     res.oblige(okr)
     if okr:
         res.inst(prop + ".R1", "the returned parser is the object validate_claim was called on")
@@ -90,7 +154,7 @@ def run(prop, key, direction):
     if cb is None:
         res.violate(prop + ".R2", mine[0]["closure"], "closure body missing", "validator closure has no MIR body")
         return res
-    table = evaluate(facts, cb, key)
+    table = evaluate(facts, cb, key, is_closure=mine[0].get("is_closure", True))
     cv = M.view(facts, cb)
     want = expected(direction)
     samples = []
@@ -181,13 +245,13 @@ def table_monotone(res, rule, facts):
         res.inst(rule, "the validator table only grows: %d mutable uses of GenericParser.claim_validators, all insert / extend" % n)
 
 
-def evaluate(facts, cb, key):
+def evaluate(facts, cb, key, is_closure=True):
     I = A.Interp(facts, MD.MODELS)
     st = A.State()
     val = MD.json_sym("value")
     c = st.new_cell(val)
     env = st.new_cell(A.Struct("(closure)", None, {}))
-    outs = I.run(cb, [A.Ptr(env), A.StrV(key), A.Ptr(c)], st)
+    outs = I.run(cb, ([A.Ptr(env)] if is_closure else []) + [A.StrV(key), A.Ptr(c)], st)
     table = {}
     for o in outs:
         s = o.state
